@@ -1,4 +1,4 @@
-from drv_strategy import StrategySuite, DistributeSuite
+from drv_strategy import StrategySuite, DistributeSuite, IdentifySuite
 
 
 class Prop:
@@ -7,15 +7,18 @@ class Prop:
     MODEL_TARGETS = ['model/Strategy.vo']
     TARGETS = ['props/C14.vo']
     PROPS_FILE = 'props/C14.v'
-    SUITES = [StrategySuite(), DistributeSuite()]
+    SUITES = [StrategySuite(), DistributeSuite(), IdentifySuite()]
     RULE = ('strategy suite: random layouts of 6 instances on 1-4 nodes (several instances per node, node lists as '
             'identify() appends them, 1 in 8 with a re-identified instance, 1 in 10 hostile), loads 0-100 with ties, '
             '0-3 pending requests, candidate subsets/permutations/repetitions, all six strategies, run on the real '
             'get_supvisors_instance/get_node; non-trivial = at least two valid candidates with different '
             '(instance load, node load) keys, distinct by strategy, keys, candidate order and answer. '
             'distribute suite: real ApplicationStartJobs.before()/add_commands on applications of 1-5 processes, '
-            'three distribution rules x six strategies; non-trivial = an assignment was made among >= 2 possible '
-            'identifiers')
+            'three distribution rules x six strategies, programs known/disabled on subsets of the instances; '
+            'non-trivial = an assignment was made among >= 2 possible identifiers. '
+            'identify suite: 1-9 handshakes (re-identifications, refused identifications, changed machine ids) on the '
+            'real Context.on_identification_event/SupvisorsMapper.identify, then one placement; non-trivial = an '
+            'instance identified at least twice')
     ASSUMPTIONS = ['instance state, machine id, mapper.nodes, local identifier are set by data on real objects; '
                    'instance loads come from real RUNNING ProcessStatus objects through get_load()',
                    'application.possible_identifiers()/possible_node_identifiers()/get_start_sequence_expected_load() '
